@@ -165,9 +165,13 @@ PROPS = {
         "trusted_base": COMMON_TB + ["modelled, not verified: state_machine.rs perform_update_check attempt loop, do_omaha_request_and_update_context, randomize"],
     },
     "C13": {
-        "run": ["EvalC13"], "functional": True,
+        "run": ["EvalC13", "EvalC13any"], "functional": True,
         "n": {"quick": 500, "thorough": 3000},
-        "level_text": "Generator part.  Model/Gen.v transcribes async_generator.rs (generate, Yield::yield_/yield_all, Generator::poll_next, FusedStream) over a protocol-level "
+        "level_text": "Two parts.  (A) State machine: C13_state_machine_delivers_progress_and_never_runs_ahead - for every script and entry point the trace of the state-machine model is accepted by the executable "
+                      "monitor step13: every progress value the installer reports is delivered, in order, before anything else happens (so before the install's outcome is announced); a request goes out only after the "
+                      "check (or, for a ping, the wait for the reboot) has announced itself, the installer is started only after InstallingUpdate has been taken, the reboot is performed only after WaitingForReboot has "
+                      "been taken.  Tied to the code by scripted runs of the real state machine (events are recorded when the consumer takes them, calls when they are made; the scripted installer reports its progress "
+                      "values one by one or all at once), monitor and trace equality as for the other state-machine properties.  (B) Generator.  Model/Gen.v transcribes async_generator.rs (generate, Yield::yield_/yield_all, Generator::poll_next, FusedStream) over a protocol-level "
                       "transcription of futures-channel 0.3.34 mpsc::channel(0) (park on every send, flush ready iff unparked, receive = pop + unpark + wake, AtomicWaker recv_task, "
                       "close on last sender drop) and of futures-util Send/SendAll/Fuse.  Theorems for ALL programs (lists of Yield/YieldAll/SelfWake/Wait k/DropHandle + return) and ALL "
                       "schedules (lists of Poll/Complete k), unbounded: C13_order_exactly_once (results = Pending/Yielded prefix whose values are a prefix of the emissions in order; "
